@@ -50,6 +50,9 @@ func (d *Data) MergeLabels(v dvid.VersionID, op labels.MergeOp, info dvid.ModInf
 	}
 	dvid.Debugf("Merging %s into label %d ...\n", op.Merged, op.Target)
 
+	d.labelMutMu.Lock()
+	defer d.labelMutMu.Unlock()
+
 	d.StartUpdate()
 	defer d.StopUpdate()
 	dvid.VerifPoint("yield:labelmap.MergeLabels:entry")
@@ -207,6 +210,9 @@ func (d *Data) MergeLabels(v dvid.VersionID, op labels.MergeOp, info dvid.ModInf
 //
 // labels.MergeEndEvent occurs at end of merge and transmits labels.DeltaMergeEnd struct.
 func (d *Data) RenumberLabels(v dvid.VersionID, origLabel, newLabel uint64, info dvid.ModInfo) (mutID uint64, err error) {
+	d.labelMutMu.Lock()
+	defer d.labelMutMu.Unlock()
+
 	var isPresent bool
 	isPresent, err = d.labelIndexExists(v, newLabel)
 	if err != nil {
@@ -406,6 +412,9 @@ func (d *Data) CleaveLabel(v dvid.VersionID, label uint64, info dvid.ModInfo, r 
 	if err = d.PublishKafkaMsg(jsonBytes); err != nil {
 		dvid.Errorf("error on sending cleave op to kafka: %v\n", err)
 	}
+
+	d.labelMutMu.Lock()
+	defer d.labelMutMu.Unlock()
 
 	d.StartUpdate()
 	defer d.StopUpdate()
@@ -922,6 +931,9 @@ func (d *Data) SplitSupervoxel(v dvid.VersionID, svlabel, splitlabel, remainlabe
 	if splitSize == 0 {
 		dvid.Infof("split on supervoxel %d -> %d was given split size of 0\n", svlabel, remainlabel)
 	}
+
+	d.labelMutMu.Lock()
+	defer d.labelMutMu.Unlock()
 
 	// read parent label index and do simple check on split size
 	var mapping *VCache
